@@ -1,5 +1,10 @@
-"""fork-based parallel map that accepts closures (the callable is inherited by the forked workers)."""
+"""fork-based parallel map that accepts closures (the callable is inherited by the forked workers).
+
+A worker that dies (killed for memory, crashed interpreter) must not leave the check waiting for ever: the executor reports a
+broken pool, which becomes an analysis failure (exit 2), never a pass."""
 import multiprocessing, os
+from concurrent.futures import ProcessPoolExecutor
+from concurrent.futures.process import BrokenProcessPool
 
 _FN = None
 
@@ -8,6 +13,8 @@ def _call(i_item):
     i, item = i_item
     try:
         return (i, True, _FN(item))
+    except MemoryError as e:
+        return (i, False, ('MemoryError', 'worker ran out of memory'))
     except Exception as e:          # propagate analysis refusals as values
         return (i, False, (type(e).__name__, str(e)))
 
@@ -20,12 +27,15 @@ def pmap(fn, items, procs=None):
         return [fn(x) for x in items]
     _FN = fn
     ctx = multiprocessing.get_context('fork')
-    with ctx.Pool(procs) as pool:
-        res = pool.map(_call, list(enumerate(items)), chunksize=1)
+    from facts import AnalysisBroken
+    try:
+        with ProcessPoolExecutor(procs, mp_context=ctx) as pool:
+            res = list(pool.map(_call, list(enumerate(items)), chunksize=1))
+    except BrokenProcessPool:
+        raise AnalysisBroken('a worker process of the parallel map died (out of memory or crashed): result incomplete')
     out = [None] * len(items)
     for i, ok, v in res:
         if not ok:
-            from facts import AnalysisBroken
             raise AnalysisBroken('%s: %s' % v)
         out[i] = v
     return out
